@@ -639,6 +639,37 @@ func c09Crafted(rng *core.RNG) []c09Blob {
 			add("load", "PNG", b, fmt.Sprintf("nul-description: v2 description of %d NUL bytes, in a PNG", n))
 		}
 	}
+	// mluc with very many records, every one with a locale of its own and a short string of its own
+	// (parsing or looking up must not be quadratic in the number of records)
+	for _, recs := range []int{20000, 400000} {
+		n := 16 + 12*recs + 2*recs
+		tag := make([]byte, n)
+		copy(tag, "mluc")
+		binary.BigEndian.PutUint32(tag[8:], uint32(recs))
+		binary.BigEndian.PutUint32(tag[12:], 12)
+		for k := 0; k < recs; k++ {
+			o := 16 + 12*k
+			tag[o], tag[o+1] = byte('a'+k%26), byte('a'+(k/26)%26)
+			tag[o+2], tag[o+3] = byte('A'+(k/676)%26), byte(k/17576)
+			binary.BigEndian.PutUint32(tag[o+4:], 2)
+			binary.BigEndian.PutUint32(tag[o+8:], uint32(16+12*recs+2*k))
+			tag[16+12*recs+2*k+1] = byte('0' + k%10)
+		}
+		prof, _ := imggen.ICCSpec{Header: imggen.MinimalHeader(true), Tags: []imggen.ICCTag{{Sig: "desc", Data: tag}}}.Build()
+		add("icc", "ICC", prof, fmt.Sprintf("mluc-many-distinct-records: %d records with distinct locales (%d bytes)", recs, len(prof)))
+	}
+	// an iCCP stream that is not zlib at all (bad header), short and long: whatever machinery
+	// feeds the decompressor must not wait for a reader that has given up
+	for _, n := range []int{40, 5000, 70000, 1 << 20} {
+		raw := append([]byte{0x12, 0x34}, rng.Bytes(n)...)
+		sp := imggen.PNGSpec{W: 5, H: 7, Depth: 8, ColorType: 2, ICC: &imggen.PNGICC{Name: "b", RawStream: raw, State: "damaged"}, Post: []imggen.PNGChunk{{Type: "tEXt", Data: rng.Bytes(300)}}, IDAT: []byte{1, 2}}
+		b, _ := sp.Build()
+		add("load", "PNG", b, fmt.Sprintf("bad-zlib-header: iCCP stream of %d bytes that does not start with a zlib header", n+2))
+		raw2 := append([]byte{0x78, 0x9c}, rng.Bytes(n)...)
+		sp.ICC = &imggen.PNGICC{Name: "b", RawStream: raw2, State: "damaged"}
+		b, _ = sp.Build()
+		add("load", "PNG", b, fmt.Sprintf("bad-deflate-body: iCCP stream of %d bytes with a zlib header and noise behind it", n+2))
+	}
 	// deflate bombs: highly compressible profiles
 	for _, n := range []int{1 << 20, 8 << 20} {
 		sp := imggen.PNGSpec{W: 5, H: 7, Depth: 8, ColorType: 2, ICC: &imggen.PNGICC{Name: "z", Profile: make([]byte, n), Level: 9}, IDAT: []byte{1}}
